@@ -64,7 +64,7 @@ def verify_one(args):
             item = {"id": oid, "line": o.lineno, "note": o.note, "trivial": bool(getattr(o, "trivial", False)),
                     "timeout": timeout_s}
             if not item["trivial"]:
-                item["smt2"], item["names"] = obligation_text(o)
+                item["smt2"], item["names"], item["small_smt2"] = obligation_text(o)
             out["obligations"].append(item)
         for cid, hyps in covers:
             out["covers"].append({"id": cid, "smt2": hyps_text(hyps)})
